@@ -167,7 +167,8 @@ LOCATIONS = [None, b"", b"/rel", b"rel", b"?q=1", b"#f", b"http://127.0.0.1:@POR
              b"http://127.0.0.1:@PORT@/\xe9", b"ftp://127.0.0.1:@PORT@/", b"http://127.0.0.1:1/", b"http:///x", b"http://:@PORT@/",
              b"http://127.0.0.1:@PORT@:1/", b"http://127.0.0.1:@PORT@/a?b?c", b"http%3A%2F%2F127.0.0.1%3A@PORT@%2Fq",
              b"http://localhost:@PORT@/l", b"\x00", b"http://127.0.0.1:@PORT@/ sp ace", b"http://[::1]:@PORT@/six",
-             b"http://127.0.0.1://127.0.0.1:@PORT@/next", b"http://127.0.0.1:@PORT@//evil/next", b"http://127.0.0.1:@PORT@/http://x:1/"]
+             b"http://127.0.0.1://127.0.0.1:@PORT@/next", b"http://127.0.0.1:@PORT@//evil/next", b"http://127.0.0.1:@PORT@/http://x:1/",
+             b"http://127.0.0.1:@PORT@/a?\x85b=c", b"http://127.0.0.1:@PORT@/a?k%C3%A9y=v&\xe9=1"]
 REDIRECT_STATUS = [b"300 Multiple Choices", b"301 Moved Permanently", b"302 Found", b"303 See Other", b"307 Temporary Redirect",
                    b"305 Use Proxy", b"308 Permanent Redirect"]
 SSE_BODIES = [b"data: \xff\xfe\n\n", b"\xff: x\n\n", b"id: \x00\n\ndata: a\n\n", b"retry: abc\n\n", b"retry: 99999999999999999999\ndata: r\n\n",
